@@ -1,5 +1,7 @@
 (* C21 - Lenient and unlinked interpretation agree with strict interpretation.
-   Statements only; proofs are in Proofs/Options.v.  Model: Model/Options.v. *)
+   Statements only; proofs are in Proofs/Options.v.  Model: Model/Options.v, the code after the repair 307ffab4
+   (in lenient mode the options message is copied before each option and the copy is taken back when the option
+   reported an error). *)
 From Coq Require Import List ZArith NArith Bool String.
 From PV Require Import Model.Options Model.ProtocOptions Proofs.Options.
 Import ListNotations.
@@ -10,7 +12,7 @@ Open Scope Z_scope.
    options message and leaves nothing uninterpreted. *)
 Theorem C21_strict_ok_implies_lenient_same : forall sch tt T m0 stmts m rem,
   interpret_strict sch tt T m0 stmts = Ok (m, rem) ->
-  interpret_lenient sch tt T m0 stmts = LOk m [] /\ rem = [].
+  (exists done, interpret_lenient sch tt T m0 stmts = (m, [], done)) /\ rem = [].
 Proof. exact strict_ok_implies_lenient_same_lemma. Qed.
 Print Assumptions C21_strict_ok_implies_lenient_same.
 
@@ -27,45 +29,44 @@ Print Assumptions C21_unlinked_values_subset_of_strict.
 Theorem C21_unlinked_run_equals_strict_first_pass : forall sch tt T m0 stmts m rem,
   noncustom_ext_free stmts = true ->
   interpret_strict sch tt T m0 stmts = Ok (m, rem) ->
-  exists m1, pass_strict sch tt false T m0 stmts = Ok (m1, filter is_custom stmts) /\
-             interpret_unlinked sch tt T m0 stmts = LOk m1 (filter is_custom stmts).
+  exists m1 done, pass_strict sch tt false T m0 stmts = Ok (m1, filter is_custom stmts) /\
+                  interpret_unlinked sch tt T m0 stmts = (m1, filter is_custom stmts, done).
 Proof. exact unlinked_run_lemma. Qed.
 Print Assumptions C21_unlinked_run_equals_strict_first_pass.
 
 (* The remainder of a lenient (or unlinked) run is what ONE walk over the statements in source order keeps:
-   a statement is kept exactly when its own interpretation reported an error; statements are kept verbatim
-   and in order (ref_walk never reorders or rewrites; its remainder is a subsequence of the statements). *)
-Theorem C21_uninterpreted_kept_verbatim : forall sch tt T m0 stmts m rem,
-  interpret_lenient sch tt T m0 stmts = LOk m rem ->
+   a statement is kept exactly when its own interpretation reported an error (and then the message of its pass
+   stays as it was); statements are kept verbatim and in order. *)
+Theorem C21_uninterpreted_kept_verbatim : forall sch tt T m0 stmts m rem done,
+  interpret_lenient sch tt T m0 stmts = (m, rem, done) ->
   (exists m1, ref_walk sch tt T m0 m1 stmts = (m1, m, rem)) /\ subseq rem stmts.
 Proof. exact uninterpreted_kept_verbatim_full_lemma. Qed.
 Print Assumptions C21_uninterpreted_kept_verbatim.
 
-(* The code as it is: a statement that fails can leave the options message changed (intermediate messages of its
-   path stay behind; a message literal is stored without the field that failed; a value is stored although the
-   option may not be used on this kind of element) - and the lenient run returns that message together with
-   the statement as uninterpreted. *)
-Theorem C21_no_half_population_refuted :
-  (exists sch tt T m name v m' e, interpret_field sch tt T m name v = (m', e) /\ e <> [] /\ m' <> m) /\
-  (exists sch tt T st m, interpret_lenient sch tt T [] [st] = LOk m [st] /\ m <> []).
-Proof. exact no_half_population_refuted_full_lemma. Qed.
-Print Assumptions C21_no_half_population_refuted.
+(* No half-populated options message, for every schema and statement list: the message of the lenient run is exactly
+   what the interpreted options produce when applied alone (each without error, in the order of the two passes);
+   options that are kept leave no trace; remainder and interpreted options partition the statements. *)
+Theorem C21_no_half_population : forall sch tt T m0 stmts m rem done,
+  interpret_lenient sch tt T m0 stmts = (m, rem, done) ->
+  apply_all sch tt T m0 done = Some m /\ subseq rem stmts /\
+  (List.length rem + List.length done = List.length stmts)%nat.
+Proof. exact no_half_population_lemma. Qed.
+Print Assumptions C21_no_half_population.
 
-(* Where it holds: no field restricts its targets, the value is not a message literal or list, and every message
-   on the path of the option name is already there.  Each of the three guards is needed: the witnesses
-   half_population_target, half_population_literal and half_population_path drop one each. *)
-Theorem C21_no_half_population_partial : forall sch tt, targets_free sch = true ->
-  forall name T m v m' e,
-  scalar_shaped v = true -> prefix_present sch T m name = true ->
-  interpret_field sch tt T m name v = (m', e) -> e <> [] -> m' = m.
-Proof. exact no_half_population_partial_lemma. Qed.
-Print Assumptions C21_no_half_population_partial.
-
-(* non-vacuity: a lenient run that keeps two of four statements; one guarded failure leaves the message alone *)
+(* non-vacuity: the three ways in which the code before 307ffab4 left a trace now leave the options message alone
+   (the historical lemmas half_population_path / _literal / _target and no_half_population_old_refuted_lemma in
+   Proofs/Options.v record what it did) *)
 Example C21_nonvacuous :
   interpret_lenient hp_schema 3%N 0%nat []
-    [mkStmt [PExt "foo"; PField "a"] (OUint 1); mkStmt [PExt "foo"; PField "a"] (OUint 2);
-     mkStmt [PExt "foo"; PField "r"] (OUint 7); mkStmt [PExt "foo"; PField "nosuch"] (OUint 7)]
-  = LOk [(50001%N, VM [(1%N, VS (SInt 1)); (3%N, VL [VS (SInt 7)])])]
-        [mkStmt [PExt "foo"; PField "a"] (OUint 2); mkStmt [PExt "foo"; PField "nosuch"] (OUint 7)].
+    [mkStmt [PExt "foo"; PField "sub"; PField "a"] (OStr [98%N]);
+     mkStmt [PExt "foo"] (OMsg [(LField "r", OList [OUint 1; OUint 2; OStr [120%N]])]);
+     mkStmt [PExt "onfield"] (OUint 1);
+     mkStmt [PExt "foo"; PField "a"] (OUint 7);
+     mkStmt [PExt "foo"; PField "a"] (OUint 8)]
+  = ([(50001%N, VM [(1%N, VS (SInt 7))])],
+     [mkStmt [PExt "foo"; PField "sub"; PField "a"] (OStr [98%N]);
+      mkStmt [PExt "foo"] (OMsg [(LField "r", OList [OUint 1; OUint 2; OStr [120%N]])]);
+      mkStmt [PExt "onfield"] (OUint 1);
+      mkStmt [PExt "foo"; PField "a"] (OUint 8)],
+     [mkStmt [PExt "foo"; PField "a"] (OUint 7)]).
 Proof. vm_compute. reflexivity. Qed.
